@@ -85,6 +85,13 @@ class Batch:
         for x in elems(self.P):
             v.assume(x >= 0, "target-network probabilities are >= 0 (not assumed normalised: the real head clamps after softmax)")
         self.LQ = v.tensor(f"{tag}lq", (B, A, N))            # online log-distribution of obs per action
+        # decide the done flags up front (fork): (1 - d) * gamma * z is then linear in gamma, which keeps every query in
+        # linear real arithmetic instead of z3's nonlinear solver
+        if v.mode == "sym":
+            for b in range(B):
+                x = val(self.D, b, 0)
+                if isinstance(x, Sym):
+                    self.D._e[b, 0] = x.__index__()
 
 
 class RainbowLoss(Case):
